@@ -3914,7 +3914,7 @@ let p_disconnect_req =
 type world = { w_sess : session; w_conn : bool; w_live : bool; w_event : 
                n; w_now : n; w_inq : (n * bytes) list; w_last_arrival : 
                n; w_txbuf : bytes; w_script : (n * n) list; w_broker : 
-               n; w_log : text list; w_handles : op list }
+               n; w_log : text list; w_handles : op list; w_waits : n }
 
 (** val upd_sess : world -> session -> world **)
 
@@ -3922,7 +3922,7 @@ let upd_sess w s =
   { w_sess = s; w_conn = w.w_conn; w_live = w.w_live; w_event = w.w_event;
     w_now = w.w_now; w_inq = w.w_inq; w_last_arrival = w.w_last_arrival;
     w_txbuf = w.w_txbuf; w_script = w.w_script; w_broker = w.w_broker;
-    w_log = w.w_log; w_handles = w.w_handles }
+    w_log = w.w_log; w_handles = w.w_handles; w_waits = w.w_waits }
 
 (** val upd_live : world -> bool -> bool -> n -> world **)
 
@@ -3930,7 +3930,7 @@ let upd_live w conn live ev =
   { w_sess = w.w_sess; w_conn = conn; w_live = live; w_event = ev; w_now =
     w.w_now; w_inq = w.w_inq; w_last_arrival = w.w_last_arrival; w_txbuf =
     w.w_txbuf; w_script = w.w_script; w_broker = w.w_broker; w_log = w.w_log;
-    w_handles = w.w_handles }
+    w_handles = w.w_handles; w_waits = w.w_waits }
 
 (** val upd_log : world -> text -> world **)
 
@@ -3938,7 +3938,8 @@ let upd_log w l =
   { w_sess = w.w_sess; w_conn = w.w_conn; w_live = w.w_live; w_event =
     w.w_event; w_now = w.w_now; w_inq = w.w_inq; w_last_arrival =
     w.w_last_arrival; w_txbuf = w.w_txbuf; w_script = w.w_script; w_broker =
-    w.w_broker; w_log = (l :: w.w_log); w_handles = w.w_handles }
+    w.w_broker; w_log = (l :: w.w_log); w_handles = w.w_handles; w_waits =
+    w.w_waits }
 
 (** val upd_script : world -> (n * n) list -> world **)
 
@@ -3946,7 +3947,8 @@ let upd_script w sc =
   { w_sess = w.w_sess; w_conn = w.w_conn; w_live = w.w_live; w_event =
     w.w_event; w_now = w.w_now; w_inq = w.w_inq; w_last_arrival =
     w.w_last_arrival; w_txbuf = w.w_txbuf; w_script = sc; w_broker =
-    w.w_broker; w_log = w.w_log; w_handles = w.w_handles }
+    w.w_broker; w_log = w.w_log; w_handles = w.w_handles; w_waits =
+    w.w_waits }
 
 (** val upd_now : world -> n -> world **)
 
@@ -3954,7 +3956,7 @@ let upd_now w t =
   { w_sess = w.w_sess; w_conn = w.w_conn; w_live = w.w_live; w_event =
     w.w_event; w_now = t; w_inq = w.w_inq; w_last_arrival = w.w_last_arrival;
     w_txbuf = w.w_txbuf; w_script = w.w_script; w_broker = w.w_broker;
-    w_log = w.w_log; w_handles = w.w_handles }
+    w_log = w.w_log; w_handles = w.w_handles; w_waits = w.w_waits }
 
 (** val upd_inq : world -> (n * bytes) list -> n -> world **)
 
@@ -3962,7 +3964,7 @@ let upd_inq w q last =
   { w_sess = w.w_sess; w_conn = w.w_conn; w_live = w.w_live; w_event =
     w.w_event; w_now = w.w_now; w_inq = q; w_last_arrival = last; w_txbuf =
     w.w_txbuf; w_script = w.w_script; w_broker = w.w_broker; w_log = w.w_log;
-    w_handles = w.w_handles }
+    w_handles = w.w_handles; w_waits = w.w_waits }
 
 (** val upd_txbuf : world -> bytes -> world **)
 
@@ -3970,7 +3972,8 @@ let upd_txbuf w b =
   { w_sess = w.w_sess; w_conn = w.w_conn; w_live = w.w_live; w_event =
     w.w_event; w_now = w.w_now; w_inq = w.w_inq; w_last_arrival =
     w.w_last_arrival; w_txbuf = b; w_script = w.w_script; w_broker =
-    w.w_broker; w_log = w.w_log; w_handles = w.w_handles }
+    w.w_broker; w_log = w.w_log; w_handles = w.w_handles; w_waits =
+    w.w_waits }
 
 (** val upd_broker : world -> n -> world **)
 
@@ -3978,7 +3981,7 @@ let upd_broker w m =
   { w_sess = w.w_sess; w_conn = w.w_conn; w_live = w.w_live; w_event =
     w.w_event; w_now = w.w_now; w_inq = w.w_inq; w_last_arrival =
     w.w_last_arrival; w_txbuf = w.w_txbuf; w_script = w.w_script; w_broker =
-    m; w_log = w.w_log; w_handles = w.w_handles }
+    m; w_log = w.w_log; w_handles = w.w_handles; w_waits = w.w_waits }
 
 (** val upd_handles : world -> op list -> world **)
 
@@ -3986,7 +3989,25 @@ let upd_handles w h =
   { w_sess = w.w_sess; w_conn = w.w_conn; w_live = w.w_live; w_event =
     w.w_event; w_now = w.w_now; w_inq = w.w_inq; w_last_arrival =
     w.w_last_arrival; w_txbuf = w.w_txbuf; w_script = w.w_script; w_broker =
-    w.w_broker; w_log = w.w_log; w_handles = h }
+    w.w_broker; w_log = w.w_log; w_handles = h; w_waits = w.w_waits }
+
+(** val upd_waits : world -> n -> world **)
+
+let upd_waits w n0 =
+  { w_sess = w.w_sess; w_conn = w.w_conn; w_live = w.w_live; w_event =
+    w.w_event; w_now = w.w_now; w_inq = w.w_inq; w_last_arrival =
+    w.w_last_arrival; w_txbuf = w.w_txbuf; w_script = w.w_script; w_broker =
+    w.w_broker; w_log = w.w_log; w_handles = w.w_handles; w_waits = n0 }
+
+(** val mAX_WAITS : n **)
+
+let mAX_WAITS =
+  Npos (XO (XO (XO (XO (XO (XO XH))))))
+
+(** val sTUTTER_MS : n **)
+
+let sTUTTER_MS =
+  Npos (XO (XO (XI (XO (XO (XI XH))))))
 
 (** val w_hd : world -> world **)
 
@@ -4314,16 +4335,21 @@ let io_read window deadline w =
                            match deadline with
                            | Some d ->
                              if N.leb d w.w_now
-                             then Some (N.add w.w_now (Npos XH))
+                             then Some (N.add w.w_now sTUTTER_MS)
                              else (match t1 with
                                    | Some t -> Some (N.min t d)
                                    | None -> Some d)
                            | None -> t1
                          in
-                         (match target with
+                         let target0 =
+                           if N.leb mAX_WAITS w.w_waits then None else target
+                         in
+                         (match target0 with
                           | Some t ->
                             let w1 =
-                              upd_log (upd_now w t)
+                              upd_log
+                                (upd_waits (upd_now w t)
+                                  (N.add w.w_waits (Npos XH)))
                                 (app
                                   (s2t (String ((Ascii (false, false, true,
                                     false, true, true, true, false)), (String
@@ -6150,9 +6176,10 @@ let step_action w a =
   then w
   else let w1 =
          run_action a
-           (upd_log w
-             (s2t (String ((Ascii (true, true, false, false, false, true,
-               false, false)), EmptyString))))
+           (upd_waits
+             (upd_log w
+               (s2t (String ((Ascii (true, true, false, false, false, true,
+                 false, false)), EmptyString)))) N0)
        in
        if halted w1 then w1 else upd_log w1 (show_state w1)
 
@@ -6161,7 +6188,7 @@ let step_action w a =
 let init_world c =
   { w_sess = (session_new c.c_cfg); w_conn = false; w_live = false; w_event =
     N0; w_now = N0; w_inq = []; w_last_arrival = N0; w_txbuf = []; w_script =
-    c.c_script; w_broker = N0; w_log = []; w_handles = [] }
+    c.c_script; w_broker = N0; w_log = []; w_handles = []; w_waits = N0 }
 
 (** val run_case : case -> world **)
 
